@@ -36,6 +36,33 @@ pub open spec fn whois_line_ok(item: FedItem, s: VolatileState, n: String, me: S
     }
 }
 
+// a line WHOIS may show to asker `me`: it is about some registered user that `me` may see, and names only channels `me` may learn of
+pub open spec fn whois_line_allowed(item: FedItem, s: VolatileState, me: String) -> bool {
+    exists|n: String| s.users@.contains_key(n) && whois_visible(s.users@[n], s.users@[me]) && #[trigger] whois_line_ok(item, s, n, me)
+}
+// Definition of `masks.iter().any(|mask| match_wildcard(mask, text))` on a vector of mask references (proved)
+pub fn verif_any_mask(masks: &Vec<&&str>, text: &str) -> (r: bool)
+    ensures r == exists|i: int| 0 <= i < masks@.len() && wild((**#[trigger] masks@[i])@, text@)
+{
+    let mut i: usize = 0;
+    while i < masks.len()
+        invariant i <= masks@.len(), forall|j: int| 0 <= j < i ==> !wild((**#[trigger] masks@[j])@, text@),
+        decreases masks@.len() - i,
+    {
+        if match_wildcard(*masks[i], text) { return true; }
+        i += 1;
+    }
+    false
+}
+// ASSUMED stand-in for `v.join(",")` (the text of the closing 318 line; opaque)
+#[verifier::external_body]
+pub fn verif_join_comma(v: &Vec<&str>) -> (r: String) { unimplemented!() }
+// ASSUMED stand-in for `for x in SET` (IntoIterator for HashSet<String>): every element exactly once, in some order
+#[verifier::external_body]
+pub fn verif_set_into_vec(set: HashSet<String>) -> (r: Vec<String>)
+    ensures r@.no_duplicates(), forall|x: String| r@.contains(x) <==> set@.contains(x), forall|i: int| 0 <= i < r@.len() ==> set@.contains(#[trigger] r@[i]),
+{ unimplemented!() }
+
 impl MainState {
 //@block state/rest_cmds.rs MainState::process_whois whois_one_nick unit=whois props=C12,C04,C05 rules=R0,R25,R2,R5b,R14 loopbody=~|for nick in nicks|
 //@replace ~|channel_replies\.chunks\(30\)| => verif_chunks(&channel_replies, 30)
@@ -99,5 +126,51 @@ impl MainState {
                             assert(reps.contains(itk.seq()[itk.index@ as int]@[i]));
                         }
                     }
+//@end
+
+// ===== the whole WHOIS handler: collection of the nicknames (plain names that are registered + every registered nickname matching a
+// wildcard mask), one call of the proved per-nickname block for each, the closing 318 =====
+//@fn state/rest_cmds.rs MainState::process_whois unit=whois2 props=C12,C05,C04 rules=R0,R5,R20,R1,R2
+//@blockcall whois_one_nick rebind=client
+                self.whois_one_nick(&*state, conn_state, nick).await?;
+//@replace ~|real_nickmasks\.iter\(\)\.any\(\|mask\| match_wildcard\(mask, nick\)\)| => verif_any_mask(&real_nickmasks, nick)
+//@replace ~|for nick in nicks \{| => for nick in verif_set_into_vec(nicks) {
+//@replace ~|nickmasks\.join\(","\)| => verif_join_comma(&nickmasks)
+//@ascribe real_nickmasks Vec<&&str>
+//@spec
+        requires state_wf(*old(state)), conn_ok(*old(conn_state), *old(state)),
+        ensures
+            *final(state) == *old(state), conn_same_but_stream(*final(conn_state), *old(conn_state)), // @prop C12
+            log_extends(old(conn_state).stream.log(), final(conn_state).stream.log()), // @prop C12
+            // whatever was asked: every line but the closing one is about a registered user the asker may see, and names no channel hidden from the asker
+            r is Ok ==> forall|k: int| old(conn_state).stream.log().len() <= k < final(conn_state).stream.log().len() - 1 ==>
+                whois_line_allowed(#[trigger] final(conn_state).stream.log()[k], *old(state), my_nick(*old(conn_state))), // @prop C12,C04
+//@open
+        broadcast use group_hash_axioms, bridge, string_eq, ax_fed_reply;
+        let ghost s0 = *old(state);
+        let ghost log0 = conn_state.stream.log();
+        let ghost me = my_nick(*conn_state);
+//@loop ~for nickmask in nickmasks\.iter\(\) iter=itm
+                invariant *state == s0, forall|n: String| nicks@.contains(n) ==> s0.users@.contains_key(n), // @prop C05,C12
+//@after ~for nickmask in nickmasks\.iter\(\)
+                broadcast use group_hash_axioms, bridge, string_eq;
+                let ghost key = string_of(nickmask@);
+                proof { assert forall|x: String| (#[trigger] x@) == nickmask@ implies x == key by { assert(string_of(x@) == x); } }
+//@before ~for nick in state\.users\.keys\(\)
+                let ghost uset = state.users@.dom();
+                broadcast use lemma_cover_is_exact;
+//@loop ~for nick in state\.users\.keys\(\) iter=itu
+                    invariant *state == s0, forall|n: String| nicks@.contains(n) ==> s0.users@.contains_key(n), // @prop C05,C12
+                        uset == s0.users@.dom(), itu.seq().no_duplicates(), itu.seq().len() == uset.len(),
+                        forall|q: String| uset.contains(q) ==> exists|i: int| 0 <= i < itu.seq().len() && *#[trigger] itu.seq()[i] == q,
+                        forall|i: int| 0 <= i < itu.seq().len() ==> uset.contains(*#[trigger] itu.seq()[i]),
+//@after ~for nick in state\.users\.keys\(\)
+                    broadcast use group_hash_axioms, bridge, string_eq;
+//@loop ~for nick in verif_set_into_vec iter=itn
+                invariant *state == s0, state_wf(s0), conn_ok(*old(conn_state), s0), me == my_nick(*old(conn_state)), log0 == old(conn_state).stream.log(),
+                    conn_same_but_stream(*conn_state, *old(conn_state)),
+                    forall|i: int| 0 <= i < itn.seq().len() ==> s0.users@.contains_key(#[trigger] itn.seq()[i]), // @prop C05,C12
+                    log_extends(log0, conn_state.stream.log()),
+                    forall|k: int| log0.len() <= k < conn_state.stream.log().len() ==> whois_line_allowed(#[trigger] conn_state.stream.log()[k], s0, me), // @prop C12,C04
 //@end
 }
